@@ -52,6 +52,7 @@ func main() {
 	mainHook := flag.Bool("mainhook", false, "insert defer simrt.AtExit() into func main")
 	sitesOut := flag.String("sites", "", "write the list of instrumented sites (JSON) here")
 	prefix := flag.String("prefix", "", "prefix prepended to every site id")
+	resetPkgs := flag.String("resetglobals", "", "comma separated import-path suffixes of packages whose package-level variables get a re-initialiser registered with simrt.RegisterReset (a simulated process restart)")
 	flag.Parse()
 	pats := flag.Args()
 	if *dir == "" || len(pats) == 0 {
@@ -75,6 +76,7 @@ func main() {
 	counts := map[string]int{}
 	var sites []siteInfo
 	var unmodelled []string
+	var resetFuncs []string
 	bad := false
 	for _, p := range pkgs {
 		if len(p.Errors) > 0 {
@@ -293,6 +295,48 @@ func main() {
 				}
 				return true
 			})
+			// simulated process restart: re-run the initialisers of this file's package-level
+			// variables (and zero those declared without one)
+			wantReset := false
+			for _, suf := range strings.Split(*resetPkgs, ",") {
+				if suf != "" && (p.PkgPath == suf || strings.HasSuffix(p.PkgPath, "/"+suf)) {
+					wantReset = true
+				}
+			}
+			if wantReset {
+				var body []string
+				for _, d := range f.Decls {
+					gd, ok := d.(*ast.GenDecl)
+					if !ok || gd.Tok != token.VAR {
+						continue
+					}
+					for _, sp := range gd.Specs {
+						vs := sp.(*ast.ValueSpec)
+						if len(vs.Names) != 1 || vs.Names[0].Name == "_" {
+							continue
+						}
+						name := vs.Names[0].Name
+						text := func(n ast.Node) string {
+							return string(src[p.Fset.Position(n.Pos()).Offset:p.Fset.Position(n.End()).Offset])
+						}
+						switch {
+						case len(vs.Values) == 1:
+							if _, isFn := vs.Values[0].(*ast.FuncLit); isFn {
+								continue
+							}
+							body = append(body, name+" = "+text(vs.Values[0]))
+						case len(vs.Values) == 0 && vs.Type != nil:
+							body = append(body, name+" = *new("+text(vs.Type)+")")
+						}
+					}
+				}
+				if len(body) > 0 {
+					fnName := fmt.Sprintf("verifReset%d", len(resetFuncs))
+					resetFuncs = append(resetFuncs, rawSite(f.Pos()))
+					add(f.End(), 0, "\nfunc "+fnName+"() {\n\t"+strings.Join(body, "\n\t")+"\n}\nfunc init() { simrt.RegisterReset("+fnName+") }\n")
+					counts["reset-globals"] += len(body)
+				}
+			}
 			if len(edits) == 0 {
 				continue
 			}
